@@ -66,12 +66,12 @@ def gen_info_case(rng):
     u = next(_uid)
     names = [f"a{u}", f"b{u}"]
     n = 3
-    meas = {m: dy(rng) for m in range(n) if rng.random() < 0.7}
+    meas = {m: dy(rng, nonzero=rng.random() < 0.8) for m in range(n) if rng.random() < 0.7}
     free = {}
     for nm in names:
         st = rng.choice(["val", "val", "val", "default", "both", "none"])
-        free[nm] = dict(val=dy(rng) if st in ("val", "both") else None,
-                        default=dy(rng) if st in ("default", "both") else None)
+        free[nm] = dict(val=dy(rng, nonzero=rng.random() < 0.8) if st in ("val", "both") else None,
+                        default=dy(rng, nonzero=rng.random() < 0.8) if st in ("default", "both") else None)
     kind = rng.choice(["sym", "sym", "sym", "arr", "lit", "litarr"])
     depth = rng.randint(1, 4)
     mk = lambda: px.gen_expr(rng, depth, names, list(range(n)))
@@ -629,7 +629,24 @@ def history_model_req(sf, h, own0=None):
             "query": list(range(h["n"])), "own0": [[m, rat(v)] for m, v in (own0 or {}).items()]}
 
 
+def canon_tree(sf, t, n, names):
+    """the tree SymPy actually stores for `t` (automatic simplification may cancel atoms)"""
+    import sympy
+    prog = sf.Program(n)
+    fobj = {nm: prog.params(nm) for nm in names}
+    try:
+        obj = px.to_sympy(t, fobj, prog.register)
+        return px.from_sympy(obj) if isinstance(obj, sympy.Basic) else px.num(obj)
+    except px.Unsupported:
+        return t
+
+
 def history_one(ctx, sf, h, reqs, pend):
+    h = copy.deepcopy(h)
+    for cmds in h["segs"]:
+        for c in cmds:
+            if c["k"] == "use":
+                c["e"] = canon_tree(sf, c["e"], h["n"], list(h["free"]))
     rp = dict(kind="history", case=h)
     ref_tr, ref_err = history_reference(sf, h)
     conditioned = all(px.well_conditioned(c["e"], h["free"], {m: 1.0 for m in range(h["n"])}, 1e4)
@@ -748,6 +765,18 @@ def gen_prog(rng, allow_meas=True, nmax=4):
         if k != "prep" and rng.random() < 0.3:
             op["dagger"] = True
         ops.append(op)
+        if k in ("g1", "prep") and rng.random() < 0.3:
+            # merge bait: a second operation of the same family on the same wire, right behind
+            twin = copy.deepcopy(op)
+            other = [o for o in ops[:-1] if o["cls"] == cls and len(o["pars"]) == len(pars)]
+            if other and rng.random() < 0.6:
+                twin["pars"] = [copy.deepcopy(other[-1]["pars"][0])] + twin["pars"][1:]
+                ok = all(px.well_conditioned(t, free, latest, 100) for t in twin["pars"])
+                if not ok:
+                    twin["pars"] = copy.deepcopy(op["pars"])
+            if k != "prep":
+                twin["dagger"] = rng.random() < 0.3
+            ops.append(twin)
     return dict(n=n, names=names, free=free, ops=ops)
 
 
@@ -861,7 +890,8 @@ def prog_one(ctx, sf, spec, cfg):
         return
     # unbound and unknown parameters must raise ParameterError
     frees_used = any(px.atoms(t, "f") for op in spec["ops"] for t in op["pars"])
-    if frees_used and not cfg.get("prebind") and cfg.get("neg"):
+    if frees_used and not cfg.get("prebind") and cfg.get("neg") and cfg["optimize"] == "no":
+        # (an optimizer may legitimately drop an operation, e.g. a preparation overwritten by the next one)
         fresh = build_prog(sf, spec, False, cfg.get("cut"))
         for p in fresh:   # equally named parameters are shared objects: make sure nothing is left bound
             for fp in p.free_params.values():
